@@ -41,9 +41,11 @@ func TestC02CoreSampled(t *testing.T) {
 		cfg := sim.DrawCoreCfg(rt)
 		fs := sim.DrawFateScript(rt, opts)
 		app := drawCoreApps(rt, cfg, 25, 60_000)
+		retunes := drawCoreRetunes(rt, cfg)
 		var st sim.CoreStats
 		rapid.SyncTest(rt, func(rt *rapid.T) {
 			s := sim.NewCoreSim(cfg, fs, app)
+			s.Ops = coreRetuneOps(retunes)
 			err := runUntilDrained(s, cfg, fs, app)
 			st = s.Stats
 			if err == errScriptUnfinished {
@@ -51,7 +53,7 @@ func TestC02CoreSampled(t *testing.T) {
 				err = nil
 			}
 			if err != nil {
-				rt.Fatalf("C02 (raw core): %v\ncase: %+v", err, describeCore(cfg, fs, app))
+				rt.Fatalf("C02 (raw core): %v\ntuning calls in mid-connection: %+v\ncase: %+v", err, retunes, describeCore(cfg, fs, app))
 			}
 		})
 		cl := coreClasses(&st)
@@ -71,7 +73,7 @@ func TestC02CoreSampled(t *testing.T) {
 			}
 		}
 		nontrivial := (st.LostPush > 0 && st.LostAck > 0) || len(fs.Outages) > 0
-		rec.Case(hx.Hash64(cfg, fs.Describe(), app), nontrivial, cl...)
+		rec.Case(hx.Hash64(cfg, fs.Describe(), app, retunes), nontrivial, cl...)
 		if rec.WantSample() {
 			d := describeCore(cfg, fs, app)
 			d["stats"] = st
@@ -338,8 +340,10 @@ func TestC02Session(t *testing.T) {
 		cfg := drawPairCfg(rt, pairGenOpts{})
 		fs := sim.DrawFateScript(rt, opts)
 		app := drawSessApps(rt, pairMSS(cfg), 20, 80_000)
+		retunes := drawRetunes(rt, cfg)
 		var d snmpDelta
 		outageHit, drained := false, false
+		retuned := 0
 		rapid.SyncTest(rt, func(rt *rapid.T) {
 			before := kcp.DefaultSnmp.Copy()
 			s := sim.NewSessSim(cfg.ClockOff, cfg.EntropySeed)
@@ -349,8 +353,11 @@ func TestC02Session(t *testing.T) {
 			}
 			defer p.Finish(nil)
 			setPairLinks(s, p, fs)
-			ivSum := cfg.Opts[0].Interval + cfg.Opts[1].Interval
-			err = runPairUntilComplete(p, s, fs.EndTime(), 0, ivSum)
+			ivSum := cfg.Opts[0].Interval + cfg.Opts[1].Interval + 400 // the interval may be re-tuned up to 200 ms
+			retuned, err = runPairWithRetunes(p, s, retunes)
+			if err == nil {
+				err = runPairUntilComplete(p, s, fs.EndTime(), 0, ivSum)
+			}
 			if err == nil && p.Complete() {
 				// the backlogs: acknowledgements of the tail must get through as well
 				last, lastAt := pairSignature(p), s.Now()
@@ -383,7 +390,7 @@ func TestC02Session(t *testing.T) {
 				err = nil
 			}
 			if err != nil {
-				rt.Fatalf("C02 (session): %v\ncase: %+v", err, describePair(cfg, fs, app))
+				rt.Fatalf("C02 (session): %v\ntuning calls in mid-connection: %+v\ncase: %+v", err, retunes, describePair(cfg, fs, app))
 			}
 		})
 		cl := []string{"cipher_" + cfg.Cipher}
@@ -405,7 +412,10 @@ func TestC02Session(t *testing.T) {
 		if drained {
 			cl = append(cl, "read_and_drained")
 		}
-		rec.Case(hx.Hash64(describePair(cfg, fs, app)), outageHit && d.Retrans > 0, cl...)
+		if retuned > 0 {
+			cl = append(cl, "retuned_in_mid_connection")
+		}
+		rec.Case(hx.Hash64(describePair(cfg, fs, app), retunes), outageHit && d.Retrans > 0, cl...)
 		if rec.WantSample() {
 			dd := describePair(cfg, fs, app)
 			dd["snmp_delta"] = d
